@@ -144,6 +144,7 @@ func runC05(c *Ctx) {
 	c05LogArgs(c)
 	c05Verify(c, prune)
 	c05VerifyNeedsAction(c)
+	c05IndexOfWorktree(c)
 	scannerVerdictRule(c, "R7")
 }
 
@@ -1098,5 +1099,66 @@ func c05VerifyNeedsAction(c *Ctx) {
 		g, path := Guarded(entry, ac, pass, nil)
 		c.Check(g && nonVacuous(pass), "R6", fmt.Sprintf("adapter-needs-action#%d", i), p.InstrPos(ac), "an object is handed to the adapter only with an action for this operation (or a standalone agent)",
 			"an object for which the server offered no action can be handed to the adapter; the dry-run queue of `prune --verify-remote` reports it as verified, so an object the remote does not hold is pruned: "+path)
+	}
+}
+
+// c05IndexOfWorktree (R3, worktree indexes): the index scan of prune runs once per worktree. Both diff-index passes
+// (--cached for what is staged, and the plain one) have to run in that worktree's directory — each linked worktree
+// has an index of its own. Decided on git.DiffIndex: the `-C <dir>` prefix is added under a test of the directory
+// argument alone, not under the cached flag.
+func c05IndexOfWorktree(c *Ctx) {
+	p := c.P
+	fn := p.Fn("git", "DiffIndex")
+	if fn == nil {
+		c.Missing("R3", "git.DiffIndex", "not found")
+		return
+	}
+	var cached *ssa.Parameter
+	for _, prm := range fn.Params {
+		if prm.Name() == "cached" {
+			cached = prm
+		}
+	}
+	n := 0
+	for _, b := range fn.Blocks {
+		for _, in := range b.Instrs {
+			// the slice literal {"-C", workingDir}
+			st, ok := in.(*ssa.Store)
+			if !ok {
+				continue
+			}
+			if s, isC := ConstString(st.Val); !isC || s != "-C" {
+				continue
+			}
+			n++
+			bad := ""
+			for _, dc := range decidingConds(fn, b) {
+				for _, l := range p.LeavesNoFields(dc.Cond, nil) {
+					if cached != nil && l == ssa.Value(cached) {
+						bad = describeCond(dc.Cond)
+					}
+				}
+			}
+			c.Check(bad == "", "R3", "diff-index-runs-in-the-worktree", p.InstrPos(in), "`-C <worktree>` is added whenever a directory is given", "whether diff-index runs in the worktree's directory depends on the --cached flag ("+bad+"): the staged files of a linked worktree are read from the wrong index and their objects are not retained")
+		}
+	}
+	c.AtLeast("R3", "`-C` prefix sites in DiffIndex", n, 1)
+	// and the retention task hands the worktree directory down
+	if rt := p.Fn("commands", "pruneTaskGetRetainedIndex"); rt != nil {
+		ok := false
+		for _, ci := range CallsInDeep(rt, "(*lfs.GitScanner).ScanIndex") {
+			args := CallArgs(ci.Common())
+			for _, a := range args {
+				for _, l := range p.LeavesNoFields(a, nil) {
+					if prm, isP := l.(*ssa.Parameter); isP && short(prm.Type().String()) == "string" && strings.Contains(strings.ToLower(prm.Name()), "dir") {
+						ok = true
+					}
+					if _, f, _, isF := FieldOf(l); isF && f == "Dir" {
+						ok = true
+					}
+				}
+			}
+		}
+		c.Check(ok, "R3", "index-scan-gets-worktree-dir", p.Pos(rt.Pos()), "the index scan is told which worktree to look at", "the index retention task does not pass the worktree directory to the index scan")
 	}
 }
